@@ -13,7 +13,7 @@ checked against ``sample.eval(geom)`` in input order, with targets known to be
 inside (must be found) and known to be outside (must raise / be skipped).
 """
 
-import json, hashlib, traceback, gc
+import json, hashlib, traceback, gc, os
 import numpy
 from vlib.runner import Result, rng_for
 
@@ -36,9 +36,10 @@ ASSUMPTIONS = ['numpy composition of item.linear/item.offset is the reference me
                'locate: targets on element boundaries are only required to be found when eps>0 was requested; outside targets are >=0.25 domain sizes away or gauss points of dropped elements',
                'maxprocs=1 (parallel locate is C16)']
 BUDGET_S = {'quick': 110, 'thorough': 1500}
-NSEQ = {'quick': 1500, 'thorough': 30000}
-NCHAIN = {'quick': 2000, 'thorough': 40000}
-NLOC = {'quick': 300, 'thorough': 6000}
+_SCALE = float(os.environ.get('C11_SCALE', '1') or 1)  # development only: run a fraction of the plan with fewer workers
+NSEQ = {'quick': int(800 * _SCALE), 'thorough': int(14000 * _SCALE)}
+NCHAIN = {'quick': int(2000 * _SCALE), 'thorough': int(40000 * _SCALE)}
+NLOC = {'quick': int(300 * _SCALE), 'thorough': int(6000 * _SCALE)}
 SEQ_CHUNK, CHAIN_CHUNK, LOC_CHUNK = 15, 250, 6
 NLOOK = 20
 ENV = {'NUTILS_NPROCS': '1'}
@@ -121,7 +122,7 @@ def execute_seq(case, res):
         except Exception as e:
             res.count(f'refused/{attr}:{type(e).__name__}')
             continue
-        if nsub == 0 or nsub > 600:
+        if nsub == 0 or nsub > 300:
             continue
         res.count('derived_topologies/' + attr)
         r2 = M.Reporter(res, dict(case, part=attr))
@@ -130,7 +131,10 @@ def execute_seq(case, res):
             M.check_sequence(sub.opposites, sub.references, rng, M.Reporter(res, dict(case, part=attr + '.opposites')), attr + '.opposites', NLOOK // 2, depth=0,
                              siblings=[tuple(sub.transforms[int(k)]) for k in rng.integers(0, nsub, 2)])
         M.check_index_coords(topo, sub, rng, r2, attr + ':vs parent', own=False)
-        M.check_index_coords(topo, sub, rng, M.Reporter(res, dict(case, part=attr + ' opposite')), attr + ':opposite side', own=False, use_opposite=True)
+        if attr == 'interfaces' or sub.opposites == sub.transforms:
+            M.check_index_coords(topo, sub, rng, M.Reporter(res, dict(case, part=attr + ' opposite')), attr + ':opposite side', own=False, use_opposite=True)
+        else:
+            res.count('boundary_with_ghost_opposites')  # structured boundaries name a non-existent neighbour: opposite() is meaningless there
         M.check_index_coords(sub, sub, rng, r2, attr + ':own', own=True)
         if attr == 'interfaces' and bbox is not None and (bbox[1] > bbox[0]).all():
             M.check_jump(sub, geom, info, bbox, r2, 'interfaces')
@@ -141,7 +145,7 @@ def execute_seq(case, res):
     except Exception as e:
         res.count(f'refused/refined:{type(e).__name__}')
     else:
-        if 0 < nf <= 800:
+        if 0 < nf <= 400:
             M.check_index_coords(topo, fine, rng, M.Reporter(res, dict(case, part='refined sample')), 'refined:vs parent', own=False)
     # what the contract saw during all of the above (incl. nutils' own calls)
     for f in M.CONTRACT.failures[nfail0:][:3]:
@@ -281,6 +285,13 @@ def execute_locate(case, res):
         res.count(f'geom_eval_refused/{type(e).__name__}')
         return
     lo, hi = X0.min(0), X0.max(0)
+    try:
+        # the curved map must be a diffeomorphism on every *base* element (subset topologies locate in their base topology first)
+        Xb = b['stages'][0][1].sample('bezier', 2).eval(geom)
+        lo, hi = numpy.minimum(lo, Xb.min(0)), numpy.maximum(hi, Xb.max(0))
+    except Exception as e:
+        res.count(f'geom_eval_refused/{type(e).__name__}')
+        return
     G, args, L = _geometry(geom, case['geomkind'], lo, hi, rng)
     try:
         smp_in = topo.sample('gauss', 2)
@@ -297,14 +308,21 @@ def execute_locate(case, res):
     tol, eps = dict(tol=(10.**-int(rng.integers(8, 13)), 0.), eps=(0., 10.**-int(rng.integers(8, 12))), both=(1e-9, 1e-10),
                     loose_tol=(10.**-int(rng.integers(2, 5)) * gsize, 0.), loose_eps=(0., 10.**-int(rng.integers(3, 6))))[tk]
     nin = int(rng.integers(1, 9))
-    nbz = int(rng.integers(0, 8)) if eps > 0 else 0
+    # targets on element boundaries are only demanded when eps>0 was requested and no subset post-processing is involved
+    # (SubsetTopology._locate asks the base topology first, which may answer with the dropped neighbour of a kept element)
+    subsetlike = any(op in ('trim', 'subset', 'sub', 'and') for op in b['applied'])
+    nbz = int(rng.integers(0, 8)) if eps > 0 and not subsetlike else 0
     sel_in = rng.integers(0, len(Xin), nin)
     sel_bz = rng.integers(0, len(Xbz), nbz)
     inside = numpy.concatenate([Xin[sel_in], Xbz[sel_bz]]) if nbz else Xin[sel_in]
     # outside targets
     outside = []
     nd = len(glo)
-    for _ in range(int(rng.integers(0, 4))):
+    nout = int(rng.integers(0, 4))
+    if case['manifold'] and eps > 0:
+        nout = 0  # on a manifold the eps criterion (Newton step size) accepts the projection of any target by construction
+        res.count('manifold_eps_outside_not_demanded')
+    for _ in range(nout):
         x = glo + rng.uniform(0, 1, nd) * (ghi - glo)
         d = int(rng.integers(0, nd))
         margin = rng.uniform(.25, 1.5) * gsize
@@ -313,7 +331,8 @@ def execute_locate(case, res):
     dropped = 0
     if not case['manifold'] and rng.random() < .7:
         # elements of an earlier stage that have neither an ancestor nor a descendant in the final topology are outside
-        final_ids = [tuple(map(id, t)) for t in topo.transforms]
+        final_chains = [tuple(t) for t in topo.transforms]  # keep the items alive: ids are only meaningful while they live
+        final_ids = [tuple(map(id, t)) for t in final_chains]
         final_set = set(final_ids)
         prefixes = set()
         for t in final_ids:
@@ -323,7 +342,8 @@ def execute_locate(case, res):
             if st.ndims != topo.ndims or len(st) == 0:
                 continue
             cand = []
-            for k, t in enumerate(st.transforms):
+            stage_chains = [tuple(t) for t in st.transforms]
+            for k, t in enumerate(stage_chains):
                 ids = tuple(map(id, t))
                 if ids in prefixes:
                     continue
@@ -396,7 +416,8 @@ def execute_locate(case, res):
         # in order?  (diagnostic only)
         perm_ok = sorted(map(tuple, numpy.round(Y, 6).tolist())) == sorted(map(tuple, numpy.round(expect, 6).tolist()))
         rep.violation('located points are not within the requested tolerance of the targets (in input order)',
-                      f'{where} {label} path={path}: max distance {worst:.3e} > bound {bound_ok:.3e} (tol={tol}, eps={eps}); same set in other order: {perm_ok}; targets={expect.tolist()} located={Y.tolist()}'[:1800], path=path)
+                      f'{where} {label} path={path}: max distance {worst:.3e} > bound {bound_ok:.3e} (tol={tol}, eps={eps}); same set in other order: {perm_ok}; targets={expect.tolist()} located={Y.tolist()}'[:1800],
+                      mechanism='C11-locate-manifold-projection' if case['manifold'] and not perm_ok else None, path=path)
 
     # 1. inside targets, shuffled: must be found, in input order
     order = rng.permutation(len(inside))
@@ -406,7 +427,8 @@ def execute_locate(case, res):
         res.count('locate_refused')
         return
     if st == 'exc':
-        rep.violation('locate raised an unexpected exception', f'{where}: {s}'[:1800], path=path)
+        single = type(topo).__name__ == 'StructuredTopology' and topo.ndims == 1 and len(topo) == 1 and 'read-only' in s
+        rep.violation('locate raised an unexpected exception', f'{where}: {s}'[:1800], mechanism='C11-locate-single-element-line' if single else None, path=path)
         return
     if st == 'LocateError':
         rep.violation('locate raised LocateError for targets that are images of points of the topology', f'{where} path={path} tol={tol} eps={eps}: {s}; targets={targets.tolist()}'[:1800], path=path)
@@ -421,11 +443,25 @@ def execute_locate(case, res):
         order = rng.permutation(len(allx))
         allx, isin = allx[order], isin[order]
         if case['skip_missing']:
+            if rng.random() < .25:
+                # nothing but outside targets: the result must be an empty sample
+                st, s, path = run(outside, skip_missing=True)
+                res.count('locate_skip_missing_all_outside_calls')
+                if st == 'ok':
+                    if s.npoints != 0:
+                        rep.violation('skip_missing did not drop exactly the outside targets', f'{where} path={path}: kept {s.npoints} of {len(outside)} outside targets {outside.tolist()}'[:1200],
+                                      mechanism='C11-locate-manifold-projection' if case['manifold'] else None, path=path)
+                elif st == 'LocateError':
+                    rep.violation('locate(skip_missing=True) raised LocateError', f'{where} path={path}: {s}'[:800], path=path)
+                elif st == 'exc':
+                    rep.violation('locate raised an unexpected exception', f'{where} (all targets outside, skip_missing=True): {s}'[:1800],
+                                  mechanism='C11-locate-skip-missing-all' if s.startswith('IndexError') and '_sample' in s else None, path=path)
             st, s, path = run(allx, skip_missing=True)
             res.count('locate_skip_missing_calls')
             if st == 'ok':
                 if s.npoints != int(isin.sum()):
-                    rep.violation('skip_missing did not drop exactly the outside targets', f'{where} path={path}: kept {s.npoints} of {len(allx)}, expected {int(isin.sum())}; targets={allx.tolist()} inside={isin.tolist()}'[:1800], path=path)
+                    rep.violation('skip_missing did not drop exactly the outside targets', f'{where} path={path}: kept {s.npoints} of {len(allx)}, expected {int(isin.sum())}; targets={allx.tolist()} inside={isin.tolist()}'[:1800],
+                                  mechanism='C11-locate-manifold-projection' if case['manifold'] and s.npoints > int(isin.sum()) else None, path=path)
                 else:
                     check_sample(s, allx[isin], 'skip_missing', path)
             elif st == 'LocateError':
@@ -436,7 +472,8 @@ def execute_locate(case, res):
             st, s, path = run(allx)
             res.count('locate_outside_calls')
             if st == 'ok':
-                rep.violation('locate returned silently although targets lie outside the domain', f'{where} path={path} tol={tol} eps={eps}: outside targets {outside.tolist()}; domain bbox {glo.tolist()}..{ghi.tolist()}'[:1800], path=path)
+                rep.violation('locate returned silently although targets lie outside the domain', f'{where} path={path} tol={tol} eps={eps}: outside targets {outside.tolist()}; domain bbox {glo.tolist()}..{ghi.tolist()}'[:1800],
+                              mechanism='C11-locate-manifold-projection' if case['manifold'] else None, path=path)
             elif st == 'LocateError':
                 res.count('locate_outside_raised')
             elif st == 'exc':
@@ -504,7 +541,83 @@ def replay(case):
     return res.violations
 
 
-REPRODUCERS = {}
+# ---- ledger reproducers
+
+def repro_manifold_zero_step():
+    from nutils import mesh, topology
+    topo, geom = mesh.unitsquare(2, 'square')
+    try:
+        s = topo.boundary['bottom'].locate(geom, [[.3, 1.7]], tol=1e-10)
+    except topology.LocateError:
+        return False, "unitsquare(2,'square').boundary['bottom'].locate(geom, [[.3, 1.7]], tol=1e-10) raises LocateError"
+    y = s.eval(geom)
+    d = float(numpy.linalg.norm(y - [[.3, 1.7]]))
+    return d > 1e-5, f"unitsquare(2,'square').boundary['bottom'].locate(geom, [[.3, 1.7]], tol=1e-10) silently returns the point {y.tolist()} at distance {d:.3g} from the target"
+
+
+def repro_manifold_corner():
+    from nutils import mesh, topology
+    topo, geom = mesh.rectilinear([4, 1])
+    g = geom * [.25, 1.]
+    try:
+        s = topo.boundary.locate(g, [[1., .9]], eps=1e-10)
+    except topology.LocateError:
+        return False, 'rectilinear([4,1]).boundary.locate(geom*[.25,1], [[1,.9]], eps=1e-10) raises LocateError'
+    y = s.eval(g)
+    d = float(numpy.linalg.norm(y - [[1., .9]]))
+    return d > 1e-5, f'rectilinear([4,1]).boundary.locate(geom*[.25,1], [[1,.9]], eps=1e-10): target lies on the right edge, returned point {y.tolist()} at distance {d:.3g}'
+
+
+def repro_manifold():
+    a, wa = repro_manifold_zero_step()
+    b, wb = repro_manifold_corner()
+    return bool(a or b), wa + ' | ' + wb
+
+
+def repro_skip_missing_all():
+    from nutils import mesh
+    topo, geom = mesh.unitsquare(2, 'square')
+    try:
+        s = topo.locate(geom, [[5., 5.]], eps=1e-10, skip_missing=True)
+    except Exception as e:
+        return True, f"unitsquare(2,'square').locate(geom, [[5,5]], eps=1e-10, skip_missing=True) raised {type(e).__name__}: {e}"
+    return s.npoints != 0, f'returned a sample with {s.npoints} points'
+
+
+def repro_single_element_line():
+    from nutils import mesh, topology
+    topo, geom = mesh.line(1)
+    try:
+        y = topo.locate(geom, [.5], eps=1e-10).eval(geom)
+    except topology.LocateError as e:
+        return True, f'mesh.line(1): locate(geom, [.5], eps=1e-10) raised LocateError: {e}'
+    except Exception as e:
+        return True, f'mesh.line(1): locate(geom, [.5], eps=1e-10) raised {type(e).__name__}: {e}'
+    return bool(abs(y - .5).max() > 1e-9), f'mesh.line(1): locate(geom, [.5], eps=1e-10) -> {y.tolist()}'
+
+
+def repro_scaledupdim_identity():
+    from nutils import mesh
+    topo, geom = mesh.rectilinear([2, 2])
+    ifaces = topo.trim(geom[0] - .7, maxrefine=1).interfaces
+    edges = ifaces.transforms.edges(ifaces.references)
+    k = 0
+    for ref in ifaces.references:
+        for etrans, eref in ref.edges:
+            for ctrans in (eref.child_transforms if eref else ()):
+                chain = edges[k] + (ctrans,)
+                try:
+                    i, tail = edges.index_with_tail(chain)
+                except ValueError:
+                    return True, f'edges = interfaces.transforms.edges(interfaces.references) of a trimmed rectilinear([2,2]); edges.index_with_tail(edges[{k}] + ({ctrans!r},)) raises ValueError; edges[{k}]={edges[k]!r}'
+                if i != k:
+                    return True, f'wrong index {i} != {k}'
+            k += 1
+    return False, 'all point-edge elements of the trimmed interface sequence resolve with their own child transform as tail'
+
+
+REPRODUCERS = {'C11-locate-manifold-projection': repro_manifold, 'C11-locate-skip-missing-all': repro_skip_missing_all, 'C11-locate-single-element-line': repro_single_element_line,
+               'C11-scaledupdim-identity-tail': repro_scaledupdim_identity}
 
 
 def finalize(m, tier, seed):
